@@ -12,6 +12,7 @@ from tradingenv.contracts import ETF, Stock, ES, ZN, NK, VX, Rate, Cash, FutureC
 from tradingenv.spaces import BoxPortfolio, DiscretePortfolio
 from tradingenv.transmitter import Transmitter
 from tradingenv.events import EventNBBO, IEvent
+from tradingenv.features import Feature
 from tradingenv.broker.fees import BrokerFees
 from tradingenv.broker.broker import EndOfEpisodeError
 from tradingenv.rewards import RewardPnL, RewardLogReturn, LogReturn, RewardSimpleReturn
@@ -134,22 +135,74 @@ def build(ctx, chain=False, discrete=False):
         if rng.random() < 0.5:
             allocs[0] = [0.0] * len(cs)
         space = DiscretePortfolio(cs, allocs)
+        start = 0
+        if rng.random() < 0.3:
+            # a user-defined discrete space whose actions are SIGNALS counted from a negative number (-1 short, 0 flat,
+            # +1 long ...): action 0 - the null action of the delay queue - is then not the first row of the table
+            start = -rng.randint(1, m - 1)
+            space = SignalPortfolio(cs, allocs, start)
+            ctx.cat("discrete-space-counted-from-nonzero-start")
     else:
         allocs = None
+        start = 0
         if nrc:
             # (one more contract is listed in the space but never quoted: a leg in it cannot be traded)
             space = BoxPortfolio(cs + [ETF("GHOST")], -1e9, 1e9, as_weights=False)
         else:
             space = BoxPortfolio(cs, -1.5, 1.5, margin=(rng.choice([0, 0.02]) if chain else 0.0))
     sink = ep.Sink()
-    env = TradingEnv(action_space=space, transmitter=tr, state=ep.Rec(sink), reward=rw, latency=L, steps_delay=d,
+    state = ep.Rec(sink)
+    if rng.random() < 0.3:
+        # a user feature that looks at the live account from inside its event callback (a drawdown / exposure feature):
+        # the account is valued in the middle of a bar, between two quotes that carry the same timestamp
+        state = ep.Rec(sink, features=[AccountWatcher(sink, rng.choice(["nlv", "weights", "context", "mark"]))])
+        ctx.cat("account-valued-inside-event-callbacks")
+    env = TradingEnv(action_space=space, transmitter=tr, state=state, reward=rw, latency=L, steps_delay=d,
                      broker_fees=fees, initial_cash=cash0)
     sink.env = env
-    cfg = dict(transmitter=tr, cs=cs, grid=grid, L=L, d=d, fees=fees, rate=rate, evs=evs, rw=rw, cash0=cash0, i0=i0, allocs=allocs,
+    cfg = dict(start=start, transmitter=tr, cs=cs, grid=grid, L=L, d=d, fees=fees, rate=rate, evs=evs, rw=rw, cash0=cash0, i0=i0, allocs=allocs,
                chain=chain, userate=userate, gap=gap, discrete=discrete, nrc=nrc, zero_bar=zero_bar,
                px0={c: (e_.bid_price + e_.ask_price) / 2 for c in cs if not isinstance(c, FutureChain)
                     for e_ in [next(x for x in evs if isinstance(x, EventNBBO) and x.contract == c and x.bid_price > 0)]} if nrc else None)
     return env, sink, cfg
+
+
+class AccountWatcher(Feature):
+    """A user feature that reads the live account whenever a quote arrives."""
+
+    def __init__(self, sink=None, how="nlv"):
+        self.sink = sink
+        self.how = how
+        self.seen = 0
+        super().__init__(name="AccountWatcher", save=False)
+
+    def process_EventNBBO(self, event):
+        b = self.sink.env.broker
+        try:
+            if self.how == "nlv":
+                b.net_liquidation_value(raise_if_broke=False)
+            elif self.how == "weights":
+                b.holdings_weights()
+            elif self.how == "context":
+                b.context()
+            else:
+                b.marking_to_market()
+            self.seen += 1
+        except Exception:
+            pass          # (insolvent, or a held contract without quote: the feature shrugs)
+
+
+class SignalPortfolio(DiscretePortfolio):
+    """A user-defined discrete space: the same allocation table, the actions counted from `start` (a negative number)
+    instead of 0 - e.g. -1 short / 0 flat / +1 long."""
+
+    def __init__(self, contracts, allocations, start):
+        from gymnasium.spaces import Discrete
+        super().__init__(contracts, allocations)
+        Discrete.__init__(self, n=len(allocations), start=start)
+
+    def _make_allocation(self, action, broker=None):
+        return self._allocations[int(action) - int(self.start)]
 
 
 class _Note(IEvent):
@@ -224,7 +277,7 @@ def ledger_episode(ctx, props, chain=False, discrete=False, prebuilt=None):
             if k > len(grid) + 2:
                 raise RuntimeError("episode exceeded its step cap")
             if discrete:
-                a = rng.randrange(len(cfg["allocs"]))
+                a = rng.randrange(len(cfg["allocs"])) + cfg["start"]
                 if k % 3 == 1:
                     a = np.int64(a)            # what np.argmax returns
             elif chain:
@@ -315,7 +368,7 @@ def ledger_episode(ctx, props, chain=False, discrete=False, prebuilt=None):
                 try:
                     fork = copy.deepcopy(env) if rng.random() < 0.6 else pickle.loads(pickle.dumps(env))
                     for _j in range(rng.randint(1, 3)):
-                        fa = rng.randrange(len(cfg["allocs"])) if discrete else np.array(a, dtype=float) * rng.choice([-1.0, 0.5, 0.0])
+                        fa = rng.randrange(len(cfg["allocs"])) + cfg["start"] if discrete else np.array(a, dtype=float) * rng.choice([-1.0, 0.5, 0.0])
                         if fork.step(fa)[2]:
                             break
                     ctx.cat("forked-mid-episode")
@@ -336,7 +389,10 @@ def ledger_episode(ctx, props, chain=False, discrete=False, prebuilt=None):
                 except Exception:
                     refused = True
                 pfx = "C08" if "C08" in props else "C07" if "C07" in props else "C01"
-                ctx.check(pfx + ":refused-decision-leaves-no-trace", refused and env.broker.holdings_quantity == h0_ and
+                # (cash may have moved - interest, or variation margin settled by a valuation that a user feature asked
+                # for when the latent quotes of this call arrived; the positions may not)
+                noncash = lambda h_: {c_: q_ for c_, q_ in h_.items() if not isinstance(c_, Cash)}
+                ctx.check(pfx + ":refused-decision-leaves-no-trace", refused and noncash(env.broker.holdings_quantity) == noncash(h0_) and
                           len(env.broker.track_record) == n0_ and mon.n_transact == tx0_, raised=refused, delayed=True,
                           transacts=mon.n_transact - tx0_, records=len(env.broker.track_record) - n0_)
                 bad_due_call = -1
@@ -387,9 +443,9 @@ def ledger_episode(ctx, props, chain=False, discrete=False, prebuilt=None):
 
     def alloc_denoted(a):
         if a is None:
-            vals = cfg["allocs"][0] if discrete else [0.0] * len(cs)
+            vals = cfg["allocs"][0 - cfg["start"]] if discrete else [0.0] * len(cs)      # (action 0)
         elif discrete:
-            vals = cfg["allocs"][a]
+            vals = cfg["allocs"][int(a) - cfg["start"]]
         else:
             vals = list(a)
         return vals
